@@ -6,6 +6,7 @@ import (
 	"fmt"
 	"sync"
 
+	"berty.tech/go-orbit-db/verifhook"
 	"github.com/libp2p/go-libp2p/core/event"
 	"github.com/libp2p/go-libp2p/p2p/host/eventbus"
 )
@@ -153,6 +154,7 @@ func (e *EventEmitter) handleSubscriber(ctx context.Context, sub event.Subscript
 			}
 
 			e := queue.Remove(queue.Front())
+			verifhook.Point("events.drain.dequeued", (<-chan Event)(cevent), e)
 
 			// Unlock cond mutex while sending the event
 			condProcess.L.Unlock()
